@@ -44,6 +44,17 @@ type Scenario struct {
 	Pad     int      `json:"pad,omitempty"` // the message carries this many extra bytes of text (large prompts: above the 1 MiB marks of the inspector and the retry handler)
 	Engine  string   `json:"engine"`
 	Salt    string   `json:"salt"`
+	// steps of a fleet history (history.go): ONE stack lives through all steps of a history. Down[i]: endpoint i is not
+	// healthy when the request is sent (its status in the repository is DownAs[i]); Has[i]: endpoint i serves the
+	// step's model (Model; "" = anth.Model). The candidates of the request are the endpoints that are up and serve the model.
+	Hist   int      `json:"hist,omitempty"`
+	Step   int      `json:"step,omitempty"`
+	Model  string   `json:"model,omitempty"`
+	Down   []bool   `json:"down,omitempty"`
+	DownAs []string `json:"down_as,omitempty"`
+	Has    []bool   `json:"has,omitempty"`
+	Noise  bool     `json:"noise,omitempty"` // a chat completions request on the proxy route went through the same stack just before
+	Move   string   `json:"move,omitempty"`  // how the fleet got from the previous step's state to this one (generator's label)
 }
 
 type Delivery struct {
@@ -56,6 +67,7 @@ type Delivery struct {
 
 type Obs struct {
 	StartErr     string     `json:"start_err,omitempty"`
+	Unsettled    string     `json:"unsettled,omitempty"` // the step could not be observed reliably (overloaded machine): not judged
 	Err          string     `json:"err"`
 	Status       int        `json:"status"`
 	CT           string     `json:"content_type"`
@@ -160,36 +172,66 @@ func runPlan(p *plan) []*Obs {
 				}
 			}
 		}
-		body := anth.AnthropicBody(anth.Model, sc.Stream, sc.Salt+strings.Repeat(" lorem ipsum", sc.Pad/12))
-		if sc.Invalid {
-			body = []byte(fmt.Sprintf(`{"model":%q,"max_tokens":64,"stream":%v,"messages":[]}`, anth.Model, sc.Stream))
-		}
-		p0, t0 := transStats(s)
-		raw := stack.Request("POST", "/olla/anthropic/v1/messages", s.Addr, [][2]string{{"Content-Type", "application/json"}, {"anthropic-version", "2023-06-01"}, {"X-Verif-Token", sc.Salt}}, body, false)
-		r := stack.Do(s.Addr, raw, 3*time.Second)
-		o := &Obs{Err: r.Err, Status: r.Status, CT: anth.Header1(r, "Content-Type"), Mode: anth.Header1(r, "X-Olla-Mode"), Ms: r.Ms, ClientSHA: anth.SHA(body)}
-		o.Native = len(r.Body) > 0 && (contains(r.Body, "native hello from") || contains(r.Body, "msg_native"))
-		time.Sleep(10 * time.Millisecond)
-		var all []*stack.Seen
-		idx := map[string]int{}
-		for i, b := range bes {
-			idx[b.Name] = i
-			for _, x := range b.Taken() {
-				if v := x.Header["X-Verif-Token"]; len(v) > 0 && v[0] == sc.Salt { // only this request's traffic
-					all = append(all, x)
-				}
-			}
-		}
-		sort.Slice(all, func(i, j int) bool { return all[i].Seq < all[j].Seq })
-		for _, x := range all {
-			o.Deliveries = append(o.Deliveries, Delivery{EP: idx[x.Backend], Path: x.Path, Shape: anth.Shape(x.Body), Identical: x.BodySHA == o.ClientSHA, SHA: x.BodySHA[:12]})
-		}
-		stack.Quiesce(func() string { a, b := transStats(s); return fmt.Sprint(a, b) })
-		p1, t1 := transStats(s)
-		o.StatPass, o.StatTrans = p1-p0, t1-t0
+		o := oneRequest(s, bes, sc, anth.Model, 3*time.Second)
 		out[ri] = o
 	}
 	return out
+}
+
+// oneRequest sends the scenario's Anthropic request to the stack and collects what the client and every backend saw of
+// it (only this request's traffic: the deliveries carry its token) and the translator statistics it moved.
+func oneRequest(s *stack.Stack, bes []*stack.Backend, sc *Scenario, model string, timeout time.Duration) *Obs {
+	body := anth.AnthropicBody(model, sc.Stream, sc.Salt+strings.Repeat(" lorem ipsum", sc.Pad/12))
+	if sc.Invalid {
+		body = []byte(fmt.Sprintf(`{"model":%q,"max_tokens":64,"stream":%v,"messages":[]}`, model, sc.Stream))
+	}
+	p0, t0 := transStats(s)
+	raw := stack.Request("POST", "/olla/anthropic/v1/messages", s.Addr, [][2]string{{"Content-Type", "application/json"}, {"anthropic-version", "2023-06-01"}, {"X-Verif-Token", sc.Salt}}, body, false)
+	r := stack.Do(s.Addr, raw, timeout)
+	o := &Obs{Err: r.Err, Status: r.Status, CT: anth.Header1(r, "Content-Type"), Mode: anth.Header1(r, "X-Olla-Mode"), Ms: r.Ms, ClientSHA: anth.SHA(body)}
+	o.Native = len(r.Body) > 0 && (contains(r.Body, "native hello from") || contains(r.Body, "msg_native"))
+	time.Sleep(10 * time.Millisecond)
+	var all []*stack.Seen
+	idx := map[string]int{}
+	for i, b := range bes {
+		idx[b.Name] = i
+		for _, x := range b.Taken() {
+			if v := x.Header["X-Verif-Token"]; len(v) > 0 && v[0] == sc.Salt { // only this request's traffic
+				all = append(all, x)
+			}
+		}
+	}
+	sort.Slice(all, func(i, j int) bool { return all[i].Seq < all[j].Seq })
+	for _, x := range all {
+		o.Deliveries = append(o.Deliveries, Delivery{EP: idx[x.Backend], Path: x.Path, Shape: anth.Shape(x.Body), Identical: x.BodySHA == o.ClientSHA, SHA: x.BodySHA[:12]})
+	}
+	stack.Quiesce(func() string { a, b := transStats(s); return fmt.Sprint(a, b) })
+	p1, t1 := transStats(s)
+	o.StatPass, o.StatTrans = p1-p0, t1-t0
+	return o
+}
+
+// trailLine: one step of a history in a line.
+func trailLine(sc *Scenario, o *Obs) string {
+	var cands, refuse, got []int
+	for i := range sc.Types {
+		if !sc.Down[i] && sc.Has[i] {
+			cands = append(cands, i)
+		}
+		if sc.Refuse[i] {
+			refuse = append(refuse, i)
+		}
+	}
+	if o != nil {
+		for _, d := range o.Deliveries {
+			got = append(got, d.EP)
+		}
+	}
+	mode, status := "", 0
+	if o != nil {
+		mode, status = o.Mode, o.Status
+	}
+	return fmt.Sprintf("step %d (%s): model %s stream=%v invalid=%v pad=%d, candidates %v, refusing %v -> status %d X-Olla-Mode %q, delivered to %v", sc.Step, sc.Move, sc.Model, sc.Stream, sc.Invalid, sc.Pad, cands, refuse, status, mode, got)
 }
 
 func contains(b []byte, sub string) bool { return bytes.Contains(b, []byte(sub)) }
@@ -317,9 +359,42 @@ func main() {
 			addPlan([]string{vlib.Pick(r, types), vlib.Pick(r, types), vlib.Pick(r, types)}, false)
 		}
 	}
+	// fleet histories (history.go): one long-lived stack each, drawn from the same PRNG (after the plans, whose draws
+	// stay what they were)
+	var hists []*history
+	if vlib.ReplayPath() == "" {
+		hr := r.Fork()
+		nHist, nSteps := 40, 24
+		if tier == "thorough" {
+			nHist, nSteps = 400, 60
+		}
+		for i := 0; i < nHist; i++ {
+			hists = append(hists, genHistory(hr, i+1, types, rawNative, nSteps, tier == "thorough"))
+		}
+	}
+	hresults := make([][]*Obs, len(hists))
 	results := make([][]*Obs, len(plans))
 	var mu sync.Mutex
-	scen.ParallelMap(len(plans), 16, func(i int) {
+	scen.ParallelMap(len(plans)+len(hists), 16, func(i int) {
+		if i >= len(plans) {
+			hi := i - len(plans)
+			defer func() {
+				if p := recover(); p != nil {
+					res := make([]*Obs, len(hists[hi].steps))
+					for k := range res {
+						res[k] = &Obs{StartErr: fmt.Sprint("panic: ", p)}
+					}
+					mu.Lock()
+					hresults[hi] = res
+					mu.Unlock()
+				}
+			}()
+			res := runHistory(hists[hi])
+			mu.Lock()
+			hresults[hi] = res
+			mu.Unlock()
+			return
+		}
 		defer func() {
 			if p := recover(); p != nil {
 				res := make([]*Obs, len(plans[i].reqs))
@@ -359,6 +434,18 @@ func main() {
 			c.Emit(map[string]any{"kind": "c14", "scenario": sc, "impl": results[i][k]})
 		}
 	}
-	c.Close(map[string]any{"exhaustive": true, "endpoint_types": types,
+	for i, h := range hists {
+		var trail []string // what the stack had been through before the step (the last 12 steps), for the reader of a replay
+		for k, sc := range h.steps {
+			c.Count("history move=" + sc.Move)
+			from := 0
+			if len(trail) > 12 {
+				from = len(trail) - 12
+			}
+			c.Emit(map[string]any{"kind": "c14h", "scenario": sc, "impl": hresults[i][k], "before": append([]string{}, trail[from:]...)})
+			trail = append(trail, trailLine(sc, hresults[i][k]))
+		}
+	}
+	c.Close(map[string]any{"exhaustive": true, "histories": len(hists), "endpoint_types": types,
 		"exhaustive_note": fmt.Sprintf("all %d endpoint types the real loader accepts (profile names, routing prefixes, auto): every single and every ordered pair x passthrough on/off x stream on/off x {nobody refuses, preferred native refuses, all native refuse}; triples sampled (%d mixes); engine alternates", len(types), map[bool]int{true: 1200, false: 40}[tier == "thorough"])})
 }
